@@ -90,7 +90,11 @@ class ChunkedTransferReader(object):
         elif bytes_left:
             raise NetworkError('Connection closed.')
 
-        newline_data = yield from self._connection.readline()
+        try:
+            newline_data = yield from self._connection.readline()
+        except ValueError as error:
+            raise ProtocolError(
+                'Invalid chunk ending: {0}'.format(error)) from error
 
         if len(newline_data) > 2:
             # Should be either CRLF or LF
@@ -115,7 +119,11 @@ class ChunkedTransferReader(object):
         trailer_data_list = []
 
         while True:
-            trailer_data = yield from self._connection.readline()
+            try:
+                trailer_data = yield from self._connection.readline()
+            except ValueError as error:
+                raise ProtocolError(
+                    'Invalid trailer: {0}'.format(error)) from error
 
             if not trailer_data.endswith(b'\n'):
                 raise NetworkError('Connection closed.')
